@@ -8,7 +8,7 @@ id="$1"; shift
 scratch=$(mktemp -d /tmp/redu-mut-XXXXXX)
 git -C /repo archive HEAD src | tar -x -C "$scratch"
 ( cd "$scratch" && patch -p1 -s < "$patch" ) || { echo "patch failed"; rm -rf "$scratch"; exit 9; }
-REDUINO_SRC="$scratch/src" /verif/check "$id" "$@"
+VERIF_EVIDENCE_DIR="$scratch/evidence" REDUINO_SRC="$scratch/src" /verif/check "$id" "$@"
 code=$?
 rm -rf "$scratch"
 echo "mutant exit code: $code"
